@@ -37,6 +37,7 @@ type LoopSpec struct {
 
 type Contract struct {
 	Key       string // function key (package relative for repo, full for prelude)
+	View      string // "" or the name of the view (level of abstraction) this contract belongs to; Key ends in "@<view>"
 	PkgPath   string // package the key is relative to ("" for prelude)
 	File      string
 	Props     []string
@@ -286,7 +287,15 @@ func parseContractFile(path string, pkgPath string) ([]*Contract, error) {
 			kw, rest = l[:j], strings.TrimSpace(l[j+1:])
 		}
 		if kw == "func" || kw == "lemma" {
-			cur = &Contract{Key: rest, PkgPath: pkgPath, File: path, Loops: map[int]*LoopSpec{}, Iters: map[int]*LoopSpec{}, IsLemma: kw == "lemma"}
+			view := ""
+			if j := strings.LastIndex(rest, " @"); j >= 0 && kw == "func" {
+				// "func <key> @<view>": a second contract of the same function, stated at another level of abstraction
+				// (e.g. @store: against the raw key-value store). Verified like any contract; at call sites it is used only
+				// while verifying a function of the same view.
+				view = strings.TrimSpace(rest[j+2:])
+				rest = strings.TrimSpace(rest[:j]) + "@" + view
+			}
+			cur = &Contract{Key: rest, View: view, PkgPath: pkgPath, File: path, Loops: map[int]*LoopSpec{}, Iters: map[int]*LoopSpec{}, IsLemma: kw == "lemma"}
 			out = append(out, cur)
 			continue
 		}
